@@ -161,6 +161,8 @@ func runC15(c *an.Ctx) string {
 	r15TextCodecs(c)
 	r15SetContentType(c)
 	r15RequestEncoder(c)
+	r16NotFound(c)                 // shared with C16 (rule id R16.5): the 404 body is announced with the negotiated Content-Type (encoder obtained before the status is written)
+	errorFieldFidelity(c, "R15.7") // shared with C18/R18.4: the XML writer of an error response and its reader agree field by field
 	return explanationC15
 }
 
@@ -464,6 +466,32 @@ func r15TextCodecs(c *an.Ctx) {
 		ok := found && strings.Join(cases, ",") == "*[]byte,*string" && def && derr
 		c.Check(ok, rule, f.Name, f.Decl.Pos(), "text decoder fills *string and *[]byte; other targets are an error",
 			fmt.Sprintf("text decoder type table is %v (default=%v, default errors=%v); expected *string,*[]byte with an erroring default", cases, def, derr))
+	}
+	// a body that could not be read in full is an error, never a (shorter) value
+	if f, t := tableOf(c, rule, "http", "textDecoder.Decode", 0); t != nil {
+		var probs []string
+		const readErr = `(io.ReadAll(p0.r)#1 == nil)`
+		okAtoms := map[string]bool{readErr: true, `p1.(*string)?#1`: true, `p1.(*[]byte)?#1`: true}
+		for i := range t.Paths {
+			p := &t.Paths[i]
+			e := pathEnv(p)
+			for a := range e {
+				if !okAtoms[a] {
+					probs = append(probs, "the decoder's verdict depends on "+a+": some read errors are let through")
+				}
+			}
+			if v, known := e[readErr]; known && !v {
+				if len(p.Ret) != 1 || p.Ret[0] != "io.ReadAll(p0.r)#1" {
+					probs = append(probs, "a failed read of the body does not return the read error")
+				}
+				for _, ef := range p.Effects {
+					if ef.Kind == "store" {
+						probs = append(probs, "a failed read of the body still stores a value into the target")
+					}
+				}
+			}
+		}
+		report(c, rule, f.Name+"#read-error", f, probs, "any error reading the body is returned and nothing is stored")
 	}
 }
 
